@@ -543,7 +543,7 @@ class ScaleStats(EnumContract):
     name = "e2e:scale mean / sd / std-err / median vs respondent-level statistics (slices and strands)"
     props = ("C14", "C05")
     bound = "1-D and 2-D CAT responses, <= 4 categories with partial / repeated / negative / unsorted numeric values, <= 30 respondents, optional subtotal and hidden element; seeded sample"
-    clauses = ("scale-mean", "scale-sd", "scale-stderr", "scale-median", "scale-margins-invariant", "strand-scale")
+    clauses = ("scale-mean", "scale-sd", "scale-stderr", "scale-median", "scale-margins-invariant", "strand-scale", "strand-scale-none")
 
     def cases(self, cfg, seed, thorough):
         rnd = random.Random(6000 + seed)
@@ -573,8 +573,11 @@ class ScaleStats(EnumContract):
                 return abs(a - b) <= 1e-9 * max(1, abs(b))
 
             if not has_nv or tot == 0:
-                if p.scale_mean is not None and not (isinstance(p.scale_mean, float) and p.scale_mean != p.scale_mean):
-                    bad.add("strand-scale")
+                # "absent (None) when no category has a numeric value, and ... None for a
+                # strand ... without numeric-valued respondents": every statistic
+                for nm in ("scale_mean", "scale_std_dev", "scale_std_err", "scale_median"):
+                    if getattr(p, nm) is not None:
+                        bad.add("strand-scale-none")
             else:
                 if not same(p.scale_mean, mean) or not same(p.scale_std_dev, sd) or not same(p.scale_std_err, sd / math.sqrt(tot)):
                     bad.add("strand-scale")
